@@ -161,42 +161,38 @@ def eraseCore (nt : ITier α) (ml : List (Iv α)) (a b : α) (mode : EraseMode) 
 def shrinkStep (nt1 : ITier α) (a b : α) : Except Err (ITier α) :=
   nt1.new (es := some (rejoin a (shrinkIvs a b nt1.es))) (hi := some (shiftBack a b nt1.hi))
 
-/-- the region that `eraseRegion(doShrink=True)` cuts out (after the fix in /repo): `start = max(start, minTimestamp)`,
-`end = min(end, maxTimestamp)` — only what lies inside the span can be cut out of it; without shrinking the region is
-used as given -/
+/-- the region that the shrink step of `eraseRegion(doShrink=True)` cuts out (after the fix in /repo):
+`start = max(start, minTimestamp)`, `end = min(end, maxTimestamp)` — only what lies inside the span can be cut out of it -/
 def clipLo (doShrink : Bool) (lo a : α) : α := if doShrink then pyMax2 a lo else a
 def clipHi (doShrink : Bool) (hi b : α) : α := if doShrink then pyMin2 b hi else b
 
-/-- `IntervalTier.eraseRegion(start, end, collisionMode, doShrink)`: the match list is taken with the region as given, then
-(when shrinking) the region is clipped to the span; a clipped region with `start >= end` erases nothing -/
+/-- `IntervalTier.eraseRegion(start, end, collisionMode, doShrink)`: the matched entries are removed / truncated with the
+region as given (exactly as without shrinking); only then (when shrinking) the region is clipped to the span, and the
+shrink step — shift, re-join, new end — runs with the clipped region if it is not empty (`start < end`) -/
 def ITier.eraseRegion (t : ITier α) (a b : α) (mode : EraseMode) (doShrink : Bool) : Except Err (ITier α) := do
   let mt ← t.crop a b .lax false
   let nt ← t.new
+  let nt1 ← eraseCore nt mt.es a b mode
   let a' := clipLo doShrink t.lo a
   let b' := clipHi doShrink t.hi b
-  if doShrink && decide (b' ≤ a') then pure nt
-  else do
-    let nt1 ← eraseCore nt mt.es a' b' mode
-    if doShrink then shrinkStep nt1 a' b' else pure nt1
+  if doShrink && decide (a' < b') then shrinkStep nt1 a' b' else pure nt1
 
-/-- `PointTier.eraseRegion`: the points to delete are taken with the region as given, then (when shrinking) the region is
-clipped to the span; a clipped region with `start >= end` erases nothing -/
+/-- `PointTier.eraseRegion`: the points the region covers are deleted with the region as given; only then (when
+shrinking) the region is clipped to the span, and the shrink loop runs with the clipped region if it is not empty -/
 def PTier.eraseRegion (t : PTier α) (a b : α) (doShrink : Bool) : Except Err (PTier α) := do
   let nt ← t.new
   let ct ← nt.crop a b false
+  let ps0 ← ct.ps.reverse.foldlM deletePt nt.ps
+  let nt1 : PTier α := { nt with ps := ps0 }
   let a' := clipLo doShrink t.lo a
   let b' := clipHi doShrink t.hi b
-  if doShrink && decide (b' ≤ a') then pure nt
-  else do
-    let ps0 ← ct.ps.reverse.foldlM deletePt nt.ps
-    let nt1 : PTier α := { nt with ps := ps0 }
-    if doShrink then
-      let ps := nt1.ps.filterMap fun p =>
-        if p.t < a' then some p
-        else if b' < p.t then some ⟨shiftBack a' b' p.t, p.l⟩
-        else none
-      nt1.new (ps := some ps) (hi := some (shiftBack a' b' nt1.hi))
-    else pure nt1
+  if doShrink && decide (a' < b') then
+    let ps := nt1.ps.filterMap fun p =>
+      if p.t < a' then some p
+      else if b' < p.t then some ⟨shiftBack a' b' p.t, p.l⟩
+      else none
+    nt1.new (ps := some ps) (hi := some (shiftBack a' b' nt1.hi))
+  else pure nt1
 
 /-! ## insertSpace -/
 
